@@ -1,0 +1,14 @@
+//go:build verif
+
+package saml2
+
+// VerifHook, when set, is called at named points of SigningContext() so that a
+// verification harness can observe and steer the lazy initialisation protocol.
+// Only compiled with -tags verif.
+var VerifHook func(point string)
+
+func verifPoint(p string) {
+	if h := VerifHook; h != nil {
+		h(p)
+	}
+}
